@@ -11,7 +11,9 @@ def run(res, a):
         apitrace.run_traces(res, "C06", plan, sd, dump=False, tag="" if sd == a.seed else "_s%d" % sd)
     try:
         import apimodel
-        apimodel.run(res, a.seed, a.tier)
+        st = apimodel.run(res, a.seed, a.tier)
+        res.cov.setdefault("input_distribution", {})["f_api"] = {"F": st.get("F", {}), "T": st.get("T", {}), "records": st.get("records", 0), "distinct": st.get("distinct", 0), "mismatches": st.get("mismatches", 0)}
+        res.cov["evaluations"] += st.get("records", 0)
     except ImportError:
         pass
     res.cov["rule"] = ("API traces on the real allocator: malformed stream (count*size overflow, sizes around SIZE_MAX/PTRDIFF_MAX/MI_MAX_ALLOC_SIZE, alignment 0 or not a power of two, huge alignment with offset, posix_memalign/pvalloc/reallocarray boundary cases) interleaved with ordinary traffic; oracles: NULL / EINVAL / ENOMEM / errno as documented, out-parameter untouched, every live block keeps its pattern after the failing call, and well-formed requests up to 1 GiB never return NULL. distinct = distinct traces (+ function-level records of harness/f_api.c compared with the Coq API model)")
